@@ -204,4 +204,11 @@ theorem sanitize_spec (isSpace : Char → Bool) (hs1 : isSpace '/' = false) (hs2
       intro e
       exact hw1 (by simpa using e)
 
+theorem comment_scan_exact_aux (isSpace : Char → Bool) (hs1 : isSpace '/' = false) (hs2 : isSpace '*' = false)
+    (nested : Bool) (c rest : List Char) (hc : c ≠ []) :
+    scanCL nested (sanitizeComment isSpace c ++ '*' :: '/' :: rest) = some rest := by
+  obtain ⟨x, B, hx, hclean⟩ := sanitize_spec isSpace hs1 hs2 c hc
+  rw [hx]
+  simpa [scanCL] using scanC_clean nested rest B x (hclean nested)
+
 end SqlglotModel.Str
